@@ -3,7 +3,7 @@ From Coq Require Import List String.
 From PC Require Import Conc.FootprintDefs.
 Import ListNotations.
 Local Open Scope string_scope.
-Definition compile_fx : list (mode * pterm) := [(MR, PSources); (MW, (PArg "savename")); (MR, (PArg "fixed_file")); (MW, (PArg "outputname"))].
+Definition compile_fx : list (mode * pterm) := [(MR, PSources); (MR, (PArg "fixed_file")); (MW, (PArg "outputname")); (MW, (PArg "savename"))].
 Definition design_fx : list (mode * pterm) := [(MR, (PCat (PDefault (PArg "tempname") (PArg "basename")) ".eq")); (MR, (PCat (PDefault (PArg "tempname") (PArg "basename")) ".wc")); (MR, (PCat (PDefault (PArg "tempname") (PArg "basename")) ".st")); (MR, (PArg "infilename")); (MW, (PCat (PDefault (PArg "tempname") (PArg "basename")) ".eq")); (MW, (PCat (PDefault (PArg "tempname") (PArg "basename")) ".wc")); (MW, (PCat (PDefault (PArg "tempname") (PArg "basename")) ".st")); (MW, (PCat (PDefault (PArg "tempname") (PArg "basename")) ".sp")); (MX, (PArg "spuriousbinary")); (MR, (PCat (PDefault (PArg "tempname") (PArg "basename")) ".sp")); (MW, (PArg "outfilename")); (MW, PFresh); (MD, (PCat (PDefault (PArg "tempname") (PArg "basename")) ".st")); (MD, (PCat (PDefault (PArg "tempname") (PArg "basename")) ".wc")); (MD, (PCat (PDefault (PArg "tempname") (PArg "basename")) ".eq")); (MD, (PCat (PDefault (PArg "tempname") (PArg "basename")) ".sp"))].
 Definition finish_fx : list (mode * pterm) := [(MR, (PArg "savename")); (MR, (PArg "designname")); (MW, (PArg "seqsname")); (MW, (PArg "strandsname"))].
 Definition compile_cli : list (string * pterm) := [("output", (PDefault (PArg "--output") (PAlt (PCat (PArg "BASENAME") ".pil") (PCat (PArg "BASENAME") ".des")))); ("save", (PDefault (PArg "--save") (PCat (PArg "BASENAME") ".save")))].
